@@ -573,6 +573,40 @@ func ruleCatalogue() []ruleCase {
 	out = append(out, ruleCase{ID: "rules/required/int32/true", Kind: spec.Int32, Rules: &validate.FieldRules{Required: proto.Bool(true)}, Required: true})
 	out = append(out, ruleCase{ID: "rules/required/string/false-with-other-rule", Kind: spec.String, Rules: &validate.FieldRules{Type: &validate.FieldRules_String_{String_: &validate.StringRules{MinLen: proto.Uint64(1)}}}})
 	out = append(out, ruleCase{ID: "rules/required/message-optional/true", Kind: spec.String, Card: spec.Optional, Rules: &validate.FieldRules{Required: proto.Bool(true)}, Required: true})
+	// required on fields without presence: the rule is about the field being non-empty, never about
+	// the elements, keys or values inside it (one-way: what the rules accept must validate)
+	reqOnly := func() *validate.FieldRules { return &validate.FieldRules{Required: proto.Bool(true)} }
+	bytesList := func(class string, vs ...string) ruleProbe {
+		return ruleProbe{Class: class, Set: func(m *dynamicpb.Message, fd protoreflect.FieldDescriptor) {
+			l := m.Mutable(fd).List()
+			for _, s := range vs {
+				l.Append(protoreflect.ValueOfBytes([]byte(s)))
+			}
+		}}
+	}
+	emptyValueMap := ruleProbe{Class: "empty-value", Set: func(m *dynamicpb.Message, fd protoreflect.FieldDescriptor) {
+		m.Mutable(fd).Map().Set(protoreflect.ValueOfString("k").MapKey(), protoreflect.ValueOfString(""))
+	}}
+	emptyKeyMap := ruleProbe{Class: "empty-key", Set: func(m *dynamicpb.Message, fd protoreflect.FieldDescriptor) {
+		m.Mutable(fd).Map().Set(protoreflect.ValueOfString("").MapKey(), protoreflect.ValueOfString("v"))
+	}}
+	out = append(out, ruleCase{ID: "rules/required/repeated-string/true", Kind: spec.String, Card: spec.Repeated, Rules: reqOnly(), Required: true, OneWay: true,
+		Probes: []ruleProbe{listProbe("n1", "a"), listProbe("one-empty-element", ""), listProbe("empty-element-among-others", "a", "", "b"), listProbe("n3", "a", "b", "c")}})
+	out = append(out, ruleCase{ID: "rules/required/repeated-bytes/true", Kind: spec.Bytes, Card: spec.Repeated, Rules: reqOnly(), Required: true, OneWay: true,
+		Probes: []ruleProbe{bytesList("n1", "a"), bytesList("one-empty-element", ""), bytesList("empty-element-among-others", "ab", "", "c")}})
+	out = append(out, ruleCase{ID: "rules/required+min_items/repeated-string/n=2", Kind: spec.String, Card: spec.Repeated, Required: true, OneWay: true,
+		Rules:  &validate.FieldRules{Required: proto.Bool(true), Type: &validate.FieldRules_Repeated{Repeated: &validate.RepeatedRules{MinItems: proto.Uint64(2)}}},
+		Probes: []ruleProbe{listProbe("n2", "a", "b"), listProbe("empty-elements", "", ""), listProbe("n1", "a")}})
+	out = append(out, ruleCase{ID: "rules/required/map-string/true", Kind: spec.String, Card: spec.Map, Rules: reqOnly(), Required: true, OneWay: true,
+		Probes: []ruleProbe{mapProbe("n1", 1), emptyValueMap, emptyKeyMap, mapProbe("n3", 3)}})
+	out = append(out, ruleCase{ID: "rules/required/string/true-values", Kind: spec.String, Rules: reqOnly(), Required: true, OneWay: true,
+		Probes: []ruleProbe{scalarProbe("one-char", protoreflect.ValueOfString("a")), scalarProbe("blank", protoreflect.ValueOfString(" ")), scalarProbe("long", protoreflect.ValueOfString(strings.Repeat("x", 300)))}})
+	out = append(out, ruleCase{ID: "rules/required/int32/true-values", Kind: spec.Int32, Rules: reqOnly(), Required: true, OneWay: true,
+		Probes: []ruleProbe{scalarProbe("one", protoreflect.ValueOfInt32(1)), scalarProbe("negative", protoreflect.ValueOfInt32(-1)), scalarProbe("max", protoreflect.ValueOfInt32(math.MaxInt32))}})
+	out = append(out, ruleCase{ID: "rules/required/bool/true-values", Kind: spec.Bool, Rules: reqOnly(), Required: true, OneWay: true,
+		Probes: []ruleProbe{scalarProbe("true", protoreflect.ValueOfBool(true))}})
+	out = append(out, ruleCase{ID: "rules/required/optional-string/true-values", Kind: spec.String, Card: spec.Optional, Rules: reqOnly(), Required: true, OneWay: true,
+		Probes: []ruleProbe{scalarProbe("empty-but-set", protoreflect.ValueOfString("")), scalarProbe("one-char", protoreflect.ValueOfString("a"))}})
 	// ---- the ignore option ----
 	// IGNORE_IF_ZERO_VALUE on a field without presence exempts only the zero value: every other value
 	// is judged by the same rules, and `required` stays in force. IGNORE_ALWAYS switches the rules and
